@@ -62,6 +62,17 @@ CLASS_OPTIONS = ["", "addition=True", "addition=False", "addition=int", "case_in
                  "mode='a'", "addition=False, mode='w'", "case_insensitive=True, addition=True"]
 
 
+# declarations used by this check only (no reference model needed here: the structure is observed on the parser)
+for _fd in (M.FD("mode-rw-no-output-w", "Field(mode='rw', no_output='w', default=7)", mode="rw", no_output="w", required=False,
+                 default=("v", 7)),
+            M.FD("mode-rw-no-output-w-req", "Field(mode='rw', no_output='w')", mode="rw", no_output="w"),
+            M.FD("mode-wa-no-input-a", "Field(mode='wa', no_input='a', default=7)", mode="wa", no_input="a", required=False,
+                 default=("v", 7)),
+            M.FD("mode-r-no-output-r", "Field(mode='r', no_output='r', required=False)", mode="r", no_output="r", required=False)):
+    M.MENU_BY_TAG.setdefault(_fd.tag, _fd)
+LOCAL_TAGS = ["mode-rw-no-output-w", "mode-rw-no-output-w-req", "mode-wa-no-input-a", "mode-r-no-output-r"]
+
+
 def class_decls(tier):
     out = []
     menu = M.MENU
@@ -70,6 +81,9 @@ def class_decls(tier):
             if m.deps:
                 continue
             out.append((base, (m.tag,)))
+        for tag in LOCAL_TAGS:
+            out.append((base, (tag,)))
+            out.append((base, (tag, "req")))
         pairs = [("dep", "req"), ("dep-default", "optional"), ("alias", "alias-from"), ("no-input", "no-output"),
                  ("readonly", "writeonly-req"), ("ci-alias", "req"), ("mode-ra", "default"), ("alias-both", "factory"),
                  ("no-input-w", "no-output-r"), ("exclude", "preserve"), ("dep", "alias"), ("dep-default", "alias-both"),
@@ -428,6 +442,19 @@ PROGRAMS = {
                              "class Order(Schema):\n    first: I1\n    second: I2\n    more: List[I2] = Field(default_factory=list)\n",
                              "Order", [{"first": {"a": 1}, "second": {"b": "x"}}, {"first": {"a": "2"}, "second": {"b": "y", "c": 3},
                                                                                       "more": [{"b": "z"}]}]),
+    # properties: the output view describes what the getter publishes, the input view what the setter accepts
+    "property-setter-getter": ("class Order(Schema):\n    price: float\n    _qty: int = 0\n"
+                               "    @property\n    def qty(self) -> str:\n        return f'{self._qty} pcs'\n"
+                               "    @qty.setter\n    def qty(self, value: int):\n        self._qty = value\n", "Order",
+                               [{"price": 1.5, "qty": 2}, {"price": "9.5", "qty": "3"}]),
+    "property-getter-only": ("class Box(Schema):\n    w: int\n    h: int = 1\n"
+                             "    @property\n    def area(self) -> PositiveInt:\n        return self.w * self.h\n"
+                             "    @property\n    @Field(dependencies=['w'], alias='label')\n    def text(self) -> str:\n        return 'w' * self.w\n",
+                             "Box", [{"w": 2}, {"w": "3", "h": 2}]),
+    "property-list-getter": ("class Bag(Schema):\n    n: int = 2\n"
+                             "    @property\n    def items_(self) -> List[str]:\n        return ['x'] * self.n\n"
+                             "    @items_.setter\n    def items_(self, value: Dict[str, int]):\n        self.n = len(value)\n", "Bag",
+                             [{"items_": {"a": 1}}, {"n": 1, "items_": {"a": 1, "b": 2, "c": 3}}]),
     "constrained-ref": ("class Code(str, Rule):\n    regex = '[A-Z]{2}'\n"
                         "class Item(Schema):\n    code: Code\n    codes: List[Code] = Field(default_factory=list)\n    price: Decimal = Field(ge=0, decimal_places=2, default=0)\n",
                         "Item", [{"code": "AB"}, {"code": "AB", "codes": ["CD", "EF"], "price": "1.50"}]),
